@@ -289,6 +289,24 @@ func runScenario(raw json.RawMessage) (any, error) {
 			flat = append(flat, opRef{t, i})
 		}
 	}
+	// sanity pass: every operation alone, sequentially - it must release the router's lock when it returns
+	// (a leaked lock would otherwise only show up as a worker that never answers)
+	if sc.Only == nil {
+		r0, _, _ := buildHistory(sc.Cfg, sc.Setup)
+		for _, ops := range sc.Threads {
+			for _, op := range ops {
+				base := heldLocks() // process-wide counter: compare with its value before the call
+				op.do(r0)
+				if n := heldLocks() - base; n != 0 {
+					out.Viols = append(out.Viols, explore.Violation{Property: sc.Prop, Clause: sc.Prop + ".deadlock", Class: "lock-leaked", Config: sc.Cfg.String(), History: []string{sc.Name},
+						Probe: op.String() + " (run alone, sequentially)", Observed: fmt.Sprintf("%d router lock(s) still held after the call returned", n), Expected: "every lock released",
+						Replay: explore.ItemReplay("c06/scenario", sc)})
+					out.Execs = 1
+					return out, nil
+				}
+			}
+		}
+	}
 	memo := map[string]seqResult{}
 	seq := func(order []int) seqResult {
 		key := fmt.Sprint(order)
